@@ -91,6 +91,10 @@ func tostring(t *rt.Thread, c *rt.GoCont) (rt.Cont, error) {
 	if err != nil {
 		return nil, err
 	}
+	if _, isString := c.Arg(0).TryString(); !isString {
+		// A new string (its size is up to the program: __name, __tostring).
+		t.RequireBytes(len(s))
+	}
 	return c.PushingNext(t.Runtime, rt.StringValue(s)), nil
 }
 
